@@ -436,6 +436,13 @@ func RunEnumWorker(p Params) *Summary {
 			for _, n := range []int{1, 2, 3, 4, 5, 6, 7, 8, 13, 25, 26, 27, 28, 29, 64} {
 				run := strings.Repeat(b, n)
 				bad = append(bad, `{"`+run+`":1}`, `{"k":"ab`+run+`"}`, `["`+run+`x"]`)
+				if n <= 13 || n == 32 {
+					// a long well-formed tail after the run (the output outgrows the input by two bytes
+					// per malformed byte: room that is reserved once must last for the whole tail)
+					for _, tl := range []int{9, 40, 300} {
+						bad = append(bad, `{"k":"`+run+strings.Repeat("t", tl)+`"}`, `{"`+run+strings.Repeat("k", tl)+`":"`+strings.Repeat("v", tl)+`"}`)
+					}
+				}
 				if n <= 13 {
 					// a well-formed multi-byte rune right after the run (2, 3 and 4 bytes), with 0-2 bytes to follow
 					for _, tail := range []string{"\u00e9", "\u20ac", "\U0001F600", "\U0001F600a", "\U0001F600ab", "\u20acz"} {
